@@ -549,6 +549,34 @@ def convo_ref_server(ctx, rng, idx):
     return script
 
 
+def check_beyond_text_limit(ctx, brine):
+    """integers with more decimal digits than the interpreter converts (sys.get_int_max_str_digits(), 4300 by default): the
+    published format writes integers outside the immediate range as ASCII decimal digits and nothing else. The real encoder
+    may refuse such a value (nothing is transmitted, the requester gets an exception) - but whatever it does emit must be
+    what a 5.x peer can read: tag, length, decimal digits."""
+    import sys as _sys
+    limit = _sys.get_int_max_str_digits() if hasattr(_sys, "get_int_max_str_digits") else 0
+    if not limit:
+        ctx.count("int_text_limit_disabled")
+        return
+    for v in (10 ** (limit + 7), -(10 ** (limit + 700)), (1 << (4 * limit)) + 12345, (-(1 << 20000), "in a tuple")):
+        try:
+            data = brine.dump(v)
+        except (ValueError, OverflowError):
+            ctx.count("beyond_text_limit_refused")
+            continue
+        except Exception as e:
+            ctx.violation("C19/beyond-text-limit/%s" % type(e).__name__, "dump() of an integer beyond the text limit raised %s" % type(e).__name__, {})
+            continue
+        ctx.count("beyond_text_limit_encoded")
+        # find the integer's digits: TAG_INT_L4 (0x17) + 4-byte length + text
+        i = data.find(b"\x17")
+        body = data[i + 5:i + 5 + 64] if i >= 0 else data[:64]
+        if i < 0 or not all(c in b"-0123456789" for c in body):
+            ctx.violation("C19/beyond-text-limit/not-decimal", "an integer beyond the interpreter's text limit is transmitted as %r..., which is not "
+                          "tag + length + ASCII decimal digits: no published 5.x peer can read it" % (data[max(i, 0):max(i, 0) + 24],), {})
+
+
 def run(ctx):
     from rv import suiterun
     suiterun.for_check(ctx, PROPERTY, ['dump_compared_bytewise', 'payloads_sent'])
@@ -557,6 +585,7 @@ def run(ctx):
     if ctx.shard[0] == 0:
         check_constants(ctx)
         check_golden(ctx, brine)
+        check_beyond_text_limit(ctx, brine)
         for i, v in enumerate(gen.boundary_values(surrogates=False)):
             check_value(ctx, brine, v, "boundary[%d]" % i)
     for i in range(ctx.budget(12000, 10000000)):
